@@ -77,6 +77,12 @@ fn enc_view<C: RangeCombo>(e: &Enc<C>) -> (u128, u128, bool) {
 
 /// choose a `(cdf, symbol)` for the next encode, steering by the live encoder state
 fn steer<C: RangeCombo>(rng: &mut Rng, e: &Enc<C>, w: u32, s: u32, p: u32, pool: &[(u32, u32, Vec<u128>)], b: u32) -> (Vec<u128>, usize) {
+    steer_mode::<C>(rng, e, w, s, p, pool, b, None)
+}
+
+/// `mode`: `Some(3)` = upper end just above a top-word boundary, `Some(4)` = new range on the
+/// renormalisation threshold, `None` = random mixture
+fn steer_mode<C: RangeCombo>(rng: &mut Rng, e: &Enc<C>, w: u32, s: u32, p: u32, pool: &[(u32, u32, Vec<u128>)], b: u32, mode: Option<u64>) -> (Vec<u128>, usize) {
     let total = pow2(p);
     let (lower, range, _inv) = enc_view::<C>(e);
     let scale = range >> p;
@@ -91,7 +97,7 @@ fn steer<C: RangeCombo>(rng: &mut Rng, e: &Enc<C>, w: u32, s: u32, p: u32, pool:
     if total < 4 || scale == 0 {
         return random(rng);
     }
-    match rng.next() % 10 {
+    match mode.unwrap_or_else(|| rng.next() % 10) {
         0 | 1 | 2 => {
             // straddle a boundary T inside the interval: the wrap point 2^S, the next
             // multiple of 2^(S-W) or of 2^(S-1) above `lower`
@@ -125,14 +131,20 @@ fn steer<C: RangeCombo>(rng: &mut Rng, e: &Enc<C>, w: u32, s: u32, p: u32, pool:
         }
         3 => {
             // upper end just above a top-word boundary (the D3 configuration)
-            let dist = thr - (lower % thr);
+            let dist0 = thr - (lower % thr);
+            let span = scale.saturating_mul(total);
+            if dist0 > span {
+                return random(rng);
+            }
+            let nb = (span - dist0) / thr + 1; // boundaries inside [lower, lower + scale*2^P]
+            let dist = dist0 + thr * rng.below(nb);
             let q = dist / scale + if dist % scale == 0 { 0 } else { 1 }; // scale*q >= dist
             if q == 0 || q > total {
                 return random(rng);
             }
-            let a = match rng.next() % 3 {
-                0 => 0,
-                1 => q - 1,
+            let a = match rng.next() % 4 {
+                0 | 1 => 0,
+                2 => q - 1,
                 _ => rng.below(q),
             };
             cdf_around(p, a, q)
